@@ -589,6 +589,22 @@ pub fn numeric_faults(image: &Value, with_redeclare: bool) -> Vec<(String, Vec<F
         match l.kind {
             LeafKind::Felt => {
                 let Some(cur) = image::felt_of(old) else { continue };
+                // statement numbers (addresses, bounds): distances matter, not only magnitudes -- a
+                // length computed as a difference lands just below / at a machine-word boundary
+                if path.starts_with("public_input.") {
+                    for (name, d) in [("rel+2^32", models::pow2(32)), ("rel+2^63", models::pow2(63)), ("rel+2^64-40", models::pow2(64) - Felt::from(40u64)), ("rel+2^64-1", models::pow2(64) - Felt::ONE)] {
+                        out.push((name.to_string(), vec![Fault::Set { path: path.clone(), value: image::felt_hex(&(cur + d)) }]));
+                    }
+                    out.push(("rel-1".to_string(), vec![Fault::Set { path: path.clone(), value: image::felt_hex(&(cur - Felt::ONE)) }]));
+                    // a segment's span (stop - begin) placed exactly at machine-word boundaries
+                    if let Some(prefix) = path.strip_suffix(".stop_ptr") {
+                        if let Some(b) = image::get(image, &image::parse_path(&format!("{prefix}.begin_addr"))).and_then(image::felt_of) {
+                            for (name, d) in [("span=2^32", models::pow2(32)), ("span=2^63", models::pow2(63)), ("span=2^64-40", models::pow2(64) - Felt::from(40u64)), ("span=2^64-1", models::pow2(64) - Felt::ONE), ("span=2^64", models::pow2(64)), ("span=-1", Felt::ZERO - Felt::ONE)] {
+                                out.push((name.to_string(), vec![Fault::Set { path: path.clone(), value: image::felt_hex(&(b + d)) }]));
+                            }
+                        }
+                    }
+                }
                 for (name, v) in extreme_felts() {
                     if v == cur {
                         continue;
@@ -738,8 +754,13 @@ fn c18_entry_points(ctx: &mut Ctx, bases: &[Base]) {
             work.push(fl);
         }
         if ctx.is_quick() && work.len() > 300 {
-            rng.shuffle(&mut work);
-            work.truncate(300);
+            // keep every fault on a segment bound (few fields, each guards a length computation);
+            // sample the rest (main-page cells and dynamic parameters dominate by count)
+            let (keep, mut rest): (Vec<_>, Vec<_>) = work.into_iter().partition(|fl| fl.iter().all(|f| f.path().contains(".segments[")));
+            rng.shuffle(&mut rest);
+            rest.truncate(300);
+            work = keep;
+            work.extend(rest);
         }
         for faults in work {
             let m = ctx.mine(unit);
